@@ -502,9 +502,7 @@ func c19Cause(patterns []string, paths ...string) string {
 				}
 			case rs[0] == '(' && len(rs) > 1:
 				if strings.HasPrefix(u, "(?P<") {
-					if u != strings.ToLower(u) {
-						set["group-name-upper"] = true
-					}
+					set["named-group(?P<>)"] = true
 				} else {
 					set["flags"+strings.TrimRight(u, ":)")+")"] = true
 				}
